@@ -213,6 +213,20 @@ def cases(tier, rng):
         yield J('ok_tri_contains', *tv, *q)
         if m <= 1000:
             yield J('ok_tri_contains', *tv, rng.randrange(-m, m + 1), rng.randrange(-m, m + 1))
+        # whole thick-line walk (ParallelsIterator, Line::extents, ThickPoints, LineJoin::from_points through verif_hooks):
+        # moderate widths (the walk has ~3w steps), vertices at display scale, near 2^15 (i32 products of the join) and at the i32 edge
+        wq = rng.choice([0, 1, 2, 3, 5, 8, 20, 40, 128])
+        mq = rng.choice([30, 300, 1024, 23170, 32768, 46341, 2 ** 20])
+        jv = [rng.choice([mq, -mq, rng.randrange(-mq, mq + 1), rng.randrange(-30, 31)]) for _ in range(6)]
+        if abs(jv[2] - jv[0]) + abs(jv[3] - jv[1]) < 4000 and abs(jv[4] - jv[2]) + abs(jv[5] - jv[3]) < 4000 or wq <= 8:
+            yield J('ok_join', *jv, wq, rng.randrange(3))
+        yield J('ok_extents', *jv[:4], wq, rng.randrange(3))
+        qx, qy = rng.choice([I32 - 1, -I32, I32 - 40, -I32 + 40]), rng.choice([0, I32 - 1, -I32, 17])
+        qdx, qdy = rng.randrange(-25, 26), rng.randrange(-25, 26)
+        yield J('ok_extents', ci(qx - qdx), ci(qy - qdy), qx, qy, rng.choice([1, 2, 3, 9, 30]), rng.randrange(3))
+        yield J('ok_thick_points', ci(qx - qdx), ci(qy - qdy), qx, qy, rng.choice([0, 1, 2, 3, 9, 30]))
+        yield J('ok_thick_points', rng.randrange(-60, 61), rng.randrange(-60, 61), rng.randrange(-60, 61), rng.randrange(-60, 61), rng.choice([0, 1, 2, 3, 7, 20, 2 ** 31, 2 ** 32 - 1]) if rng.random() < 0.8 else 4)
+        yield J('ok_join', ci(qx - qdx), ci(qy - qdy), qx, qy, ci(qx - qdy), ci(qy + qdx), rng.choice([1, 2, 5, 12]), rng.randrange(3))
         # line equations / intersections (verif_hooks): i32 dot products and determinants need coordinates near 2^15
         m = rng.choice([10, 1000, 1280, 16384, 23170, 23171, 32767, 32768, 46340, 46341, 65536, 2 ** 20, 2 ** 30])
         lv = [rng.choice([m, -m, m - 1, 1 - m, rng.randrange(-m, m + 1), 0, 1]) for _ in range(8)]
